@@ -41,8 +41,36 @@ def gen_cases(ctx):
         out.append({"k": "hist", "hist": hist, "p": rng.choice([1, 1, 2, 3]), "numrec": rng.choice([0, 0, 1, 2, 3]),
                     "layout": rng.choice(["sparse", "sparse", "dense"]), "ref": rng.choice([None, 0, 98765, 250000]),
                     "seed": rng.randrange(10**6), "compact": rng.random() < 0.5,
-                    "rem": rng.choice([0, 0, 250, 590]), "pextra": rng.choice([0, 0, 0, 150, 450])})
+                    "rem": rng.choice([0, 0, 250, 590]), "pextra": rng.choice([0, 0, 0, 150, 450]), "rev": rng.random() < 0.3})
+    import sim_impl as si
+
+    for _ in range(2 if ctx.quick else 20):
+        out.append({"k": "warm", "env": si.make_env(rng, N=rng.randint(5, 9), p=rng.choice([1, 2])), "numrec": rng.choice([1, 2]), "seed": rng.randrange(10**6)})
     return out
+
+
+def eval_warm(desc, d):
+    """records written after a warm start are faithful snapshots too: the restarted run's files hold, record
+    by record, the state of the uninterrupted run at that time (time coordinate included)"""
+    import sim_impl as si
+
+    env = desc["env"]
+    cold, files, conf = si.run_forward(d, env, "cold", numrec=desc["numrec"])
+    problems = []
+    for fi in range(len(files) - 1):
+        last = [r for r in cold if r["file"] == files[fi].name][-1]
+        warm, wfiles = si.run_warm(d, env, f"w{fi}", conf, files[fi], fi + 1)
+        want = [r for r in cold if r["step"] > last["step"]]
+        if [(r["time"], r["rows"]) for r in warm] != [(r["time"], r["rows"]) for r in want]:
+            problems.append(f"after a restart from {files[fi].name} the records are {[(r['time'], r['rows']) for r in warm][:3]}..., "
+                            f"the model state at those times was {[(r['time'], r['rows']) for r in want][:3]}...")
+        from netCDF4 import Dataset
+        for wf in wfiles:
+            with Dataset(wf) as nc:
+                if len(nc.variables["release_time"][:]) == 0 and len(nc.variables["time"][:]) > 0:
+                    problems.append(f"{wf.name}: particle variables not written")
+    return {"ints": None, "oracle": "; ".join(problems[:2]) or None, "nontrivial": (desc["seed"], "warm"), "kind": "warm-records",
+            "observed": {"files": len(files)}}
 
 
 def eval_case(desc, ctx):
@@ -51,14 +79,19 @@ def eval_case(desc, ctx):
     from ladim.timekeeper import TimeKeeper
 
     d = ctx.subdir("c06")
-    for f in d.glob("*.nc"):
+    for f in d.glob("*"):
         f.unlink()
+    if desc["k"] == "warm":
+        return eval_warm(desc, d)
     hist, p, numrec, layout = desc["hist"], desc["p"], desc["numrec"], desc["layout"]
     nsteps = len(hist)
     tstart = 200000
     ref = desc["ref"]
-    refv = tstart if ref is None else ref
-    tk = TimeKeeper(start=rf.iso(tstart), stop=rf.iso(tstart + nsteps * DT + desc.get("rem", 0)), dt=DT, reference=None if ref is None else rf.iso(ref))
+    rev = bool(desc.get("rev"))
+    sgn = -1 if rev else 1
+    tstop = tstart + sgn * (nsteps * DT + desc.get("rem", 0))
+    refv = min(tstart, tstop) if ref is None else ref
+    tk = TimeKeeper(start=rf.iso(tstart), stop=rf.iso(tstop), dt=DT, reference=None if ref is None else rf.iso(ref), time_reversal=rev)
     st = State(instance_variables={"age": float}, particle_variables={"weight": float, "release_time": "time"}, default_values={"age": 0.0})
     ivars = {v: {"encoding": {"datatype": "f8"}, "attributes": {}} for v in ("X", "Y", "age")}
     ivars = {"pid": {"encoding": {"datatype": "i4"}, "attributes": {}}, **ivars}
@@ -79,9 +112,9 @@ def eval_case(desc, ctx):
                 n = op[1]
                 w = rng.integers(1, 99, n).astype(float)
                 st.append(X=rng.integers(1, 50, n).astype(float), Y=rng.integers(1, 50, n).astype(float), Z=5.0,
-                          weight=w, release_time=np.full(n, np.datetime64(rf.iso(tstart + s * DT))))
+                          weight=w, release_time=np.full(n, np.datetime64(rf.iso(tstart + sgn * s * DT))))
                 for j in range(n):
-                    truth[st.npid - n + j] = (float(w[j]), tstart + s * DT - refv)
+                    truth[st.npid - n + j] = (float(w[j]), tstart + sgn * s * DT - refv)
                 if death_before_record:
                     release_after = True
             elif op[0] == "kill":
@@ -95,7 +128,7 @@ def eval_case(desc, ctx):
                 st["alive"] = np.zeros(len(st), dtype=bool)
         if s % p == 0:
             al = st.alive.copy()
-            snaps.append({"step": s, "t": tstart + s * DT - refv, "npid": int(st.npid),
+            snaps.append({"step": s, "t": tstart + sgn * s * DT - refv, "npid": int(st.npid),
                           "rows": {int(q): (float(x), float(y), float(a)) for q, x, y, a in zip(st.pid[al], st.X[al], st.Y[al], st.age[al])},
                           "pw": st["weight"].copy(), "pt": ((st["release_time"] - np.datetime64(rf.iso(refv))) / np.timedelta64(1, "s")).copy()})
         out.update()
